@@ -68,12 +68,12 @@ class Check(CheckBase):
         quick = self.tier == 'quick'
         cases = []
         kinds = ['s3c', 'b2', 's3', 'b2', 's3c', 'b2'] + [f'local:{s}' for s in SPELLINGS]
-        n = 156 if quick else 1800
+        n = 156 if quick else 12000
         for i in range(n):
             r = random.Random(f'C13/{self.seed}/{i}')
             cases.append({'kind': kinds[i % len(kinds)], 'seed': r.randrange(1 << 30), 'nops': r.randint(40, 90) if quick else r.randint(40, 150),
                           'page': [1, 2, 3, 7][(i // 3) % 4], 'nnames': r.choice([0, 3, 12, 25, 40, 40])})
-        for i in range(6 if quick else 40):
+        for i in range(6 if quick else 120):
             cases.append({'kind': 'local-atomic', 'seed': i, 'nops': 0})
         return cases
 
